@@ -58,6 +58,11 @@ pub fn vx_encode_to(codec: &mut bgp::PeerCodec, msg: &bgp::Message, buf: &mut By
         (*final(buf)).bytes() == (*old(buf)).bytes() + bgp_wire(*old(codec), *msg),
         *final(codec) == *old(codec),
 { codec.encode_to(msg, buf).unwrap(); }
+/// PeerCodec's family table read-only: has_family (uninterpreted observer of the codec state)
+pub uninterp spec fn codec_has_family(c: bgp::PeerCodec, f: bgp::Family) -> bool;
+pub assume_specification[ bgp::PeerCodec::has_family ](c: &bgp::PeerCodec, f: bgp::Family) -> (r: bool)
+    ensures r == codec_has_family(*c, f),
+;
 /// R11 helper for `codec.set_family(family, FamilyState { addpath_tx, ..Default::default() })`
 #[verifier::external_body]
 pub fn vx_set_addpath_tx(codec: &mut bgp::PeerCodec, family: bgp::Family, addpath: bool)
